@@ -6,6 +6,8 @@ import EaselModel.Buffer.KeepLines
 import EaselModel.Buffer.History
 import EaselModel.Buffer.AllLines
 import EaselModel.Buffer.Quiet
+import EaselModel.Buffer.TotalHist
+import EaselModel.Buffer.Stable
 /-! # C05 — the input buffer behaves as a byte array with a cursor in every mode and history
 
 Property theorems only; the lemmas are in `EaselModel/Buffer/*`. `Buf` is the model of `ESL_BUFFER`
@@ -228,5 +230,120 @@ example : ValidHist 1 (AState.init []) [.setAnchor 0, .getLine, .setOffset 0, .r
 example : Quiet (openBuf .stream 8 [97, 10, 98]) := open_quiet .stream 8 [97, 10, 98] (Or.inr (Or.inr (Or.inr (by decide))))
 example : ∃ b : Buf, b.anchor = some 0 ∧ b.n + b.pagesize ≤ b.balloc :=
   ⟨{ (openBuf .stream 2 [97]) with anchor := some 0, balloc := 8 }, by decide⟩
+
+/-! ## Outside the API contract (round 3): the caller contract of `history_spec` is discharged
+
+`SafeOp` (EaselModel/Buffer/Safe.lean) is what remains asked of the caller, in terms of the current window; `Total`
+(EaselModel/Buffer/Total.lean) lists what an operation may do: the specification step, or one of the documented
+`eslEINVAL` outcomes with the state after it. -/
+
+/-- **One step, no contract**: from any state reached so far, any of the 14 operations that respects the residual duties
+    either simulates the specification step or answers `eslEINVAL` as `Total` describes, and the simulation relation
+    holds again (so the next operation is covered too). -/
+theorem step_total (P : Nat) (op : Op) (a : AState) (s : Sess) (r : R P a s) (hs : SafeOp s op) :
+    ∃ a', Total a op (obsOf op (s.step op).1 (s.step op).2) a' ∧ R P a' (s.step op).2 :=
+  EaselModel.Buffer.step_total P op a s r hs
+
+/-- **Every history of the 14 operations, no API contract hypothesis**: every opener, every page size ≥ 1, every input;
+    the only hypothesis is `SafeRun` (each clause of which is necessary, see `unsafe_*` below). -/
+theorem history_total (mode : Mode) (ps : Nat) (src : Bytes) (hps : 0 < ps) (ops : List Op)
+    (hs : SafeRun { b := openBuf mode ps src } ops) : TotalRun (AState.init src) { b := openBuf mode ps src } ops :=
+  EaselModel.Buffer.history_total mode ps src hps ops hs
+
+/-- … and no operation of such a history faults or ends in an internal error: `eslOK`, `eslEOF`, `eslEOL`, `eslEINVAL` only. -/
+theorem history_total_no_fault (mode : Mode) (ps : Nat) (src : Bytes) (hps : 0 < ps) (ops : List Op)
+    (hs : SafeRun { b := openBuf mode ps src } ops) :
+    ∀ o ∈ obsRun { b := openBuf mode ps src } ops, o.st = .ok ∨ o.st = .eof ∨ o.st = .eol ∨ o.st = .einval :=
+  EaselModel.Buffer.history_total_no_fault mode ps src hps ops hs
+
+/-- The error outcomes of `Total` occur only outside the API contract (inside it: `step_simulates`). -/
+theorem error_only_outside_contract (P : Nat) (a a' : AState) (op : Op) (o : Obs) (h : Total a op o a') (he : o.st = .einval) :
+    ¬ Valid P a op :=
+  h.error_outside he
+
+/-- The residual duties ask nothing beyond the API contract. -/
+theorem contract_implies_safe (P : Nat) (a : AState) (s : Sess) (r : R P a s) (op : Op) (hv : Valid P a op) : SafeOp s op :=
+  valid_safe r op hv
+
+/-- `SafeOp` is decidable by the test the driver and the harness apply before every `try…` operation. -/
+theorem safe_decidable (s : Sess) (op : Op) : safeB s op = true ↔ SafeOp s op := safeB_iff s op
+
+/-! ### the clauses of `SafeOp`, and the two defects that the total statement exposed (both repaired in /repo:
+4515997, b86a62d; the histories below are the regression inputs, compared exactly with the real code on every run) -/
+
+def srcW : Bytes := [97, 98, 10, 99, 100, 10, 101, 102, 10, 103, 104, 10]    -- "ab\ncd\nef\ngh\n"
+
+/-- `Set(p, nused)` beyond the loaded bytes (a caller error by the documentation of `esl_buffer_Set`) is necessary: the
+    stream answers `eslEINCONCEIVABLE`, the cursor stays outside the window and the next `Read` copies from beyond it. -/
+theorem unsafe_set_beyond_window :
+    safeRunB { b := openBuf .stream 2 srcW } [.get, .set 5] = false ∧
+    (obsRun { b := openBuf .stream 2 srcW } [.get, .set 5, .read 1]).map (·.st) = [.ok, .einconceivable, .fault] := by decide
+
+/-- REGRESSION (4515997): `SetOffset` beyond the end in a whole-input mode used to answer `eslOK` and leave the cursor
+    outside the buffer (the next `GetLine` read out of bounds); now it is the documented `eslEINVAL`, nothing changes,
+    and it is no clause of `SafeOp` any more (`Total.beyond_end_whole`). -/
+theorem fixed_setoffset_beyond_end_in_memory :
+    safeRunB { b := openBuf .string 4 [97, 98] } [.setOffset 3, .getLine] = true ∧
+    (obsRun { b := openBuf .string 4 [97, 98] } [.setOffset 3, .getLine]).map (fun o => (o.st, o.bytes, o.off))
+      = [(.einval, [], 0), (.ok, [97, 98], 2)] := by decide
+
+/-- REGRESSION (b86a62d): an anchor inside the window but ahead of the cursor; the next shifting refill used to move the
+    cursor to a negative position (`St.fault` in the model of the old code, heap-buffer-overflow in the code). Now
+    everything from `min(anchor, pos)` on is kept and the reads are the specification's. Such histories are outside
+    `SafeOp` (the simulation relation assumes anchor ≤ cursor), so this is a checked instance, not yet a theorem for all. -/
+theorem fixed_anchor_ahead_of_cursor :
+    safeRunB { b := openBuf .stream 2 srcW } [.setAnchor 2] = false ∧
+    (obsRun { b := openBuf .stream 2 srcW } [.setAnchor 2, .read 1, .get, .getLine]).map (fun o => (o.st, o.bytes, o.off))
+      = [(.ok, [], 0), (.ok, [97], 1), (.ok, [], 1), (.ok, [98], 3)] ∧
+    (obsRun { b := openBuf .stream 2 srcW } [.setStableAnchor 2, .get, .getLine]).map (fun o => (o.st, o.bytes, o.off))
+      = [(.ok, [], 0), (.ok, [], 0), (.ok, [97, 98], 3)] := by decide
+
+/-- REGRESSION (b86a62d): rewinding inside the window to a byte before the active anchor, then a multi-page `Read`. -/
+theorem fixed_rewind_before_anchor :
+    safeRunB { b := openBuf .stream 2 srcW } [.setAnchor 0, .read 3, .raiseAnchor 0, .setAnchor 3] = true ∧
+    safeRunB { b := openBuf .stream 2 srcW } [.setAnchor 0, .read 3, .raiseAnchor 0, .setAnchor 3, .setOffset 2] = false ∧
+    (obsRun { b := openBuf .stream 2 srcW } [.setAnchor 0, .read 3, .raiseAnchor 0, .setAnchor 3, .setOffset 2, .read 6]).map
+        (fun o => (o.st, o.bytes, o.off))
+      = [(.ok, [], 0), (.ok, [97, 98, 10], 3), (.ok, [], 3), (.ok, [], 3), (.ok, [], 2), (.ok, [10, 99, 100, 10, 101, 102], 8)] := by
+  decide
+
+-- non-vacuity of `history_total`: a history far outside the contract that is safe, with each documented outcome
+example : safeRunB { b := openBuf .stream 2 srcW } [.read 6, .setOffset 1, .setAnchor 2, .setOffset 40, .setOffset 3, .getLine] = true := by decide
+example : (obsRun { b := openBuf .stream 2 srcW } [.read 6, .setOffset 1, .setAnchor 2, .setOffset 40, .setOffset 3, .getLine]).map (fun o => (o.st, o.off))
+    = [(.ok, 6), (.einval, 6), (.einval, 6), (.einval, 12), (.einval, 12), (.eof, 12)] := by decide
+-- the fseeko branch: beyond the end of an unanchored FILE the cursor is left at the requested offset; rewinding from there works
+example : (obsRun { b := openBuf .file 2 srcW } [.setOffset 14, .getLine, .read 0, .setOffset 3, .getLine]).map (fun o => (o.st, o.bytes, o.off))
+    = [(.einval, [], 14), (.eof, [], 14), (.ok, [], 14), (.ok, [], 3), (.ok, [99, 100], 6)] := by decide
+example : SafeRun { b := openBuf .file 2 srcW } [.setOffset 14, .getLine, .read 0, .setOffset 3, .getLine] :=
+  (safeRunB_iff _ _).mp (by decide)
+
+/-! ## Stable anchors, exactly (round 3) -/
+
+/-- **The strongest true statement about pointers under a stable anchor.** A `buffer_refill` under a stable anchor keeps
+    every pointer handed out valid if and only if it reads nothing (no stream, stream at EOF, enough loaded) or the next
+    page fits behind the loaded bytes, `n + pagesize ≤ balloc`. (`stable_ptr_valid_partial` is the `←` direction;
+    `stable_ptr_valid_fails_at` is an instance of `→`.) The property's clause "stay valid until it is raised" holds of
+    the code exactly on the histories all of whose refills satisfy the right-hand side. -/
+theorem stable_ptr_valid_iff (b : Buf) (nmin : Nat) (hp : b.pos ≤ b.n) (ha : b.anchor = some 0) :
+    (refill b nmin).2.memgen = b.memgen ↔
+      (b.hasfp = false ∨ b.eof = true ∨ nmin + b.pagesize ≤ b.n - b.pos ∨ b.n + b.pagesize ≤ b.balloc) :=
+  refill_stable_iff b nmin hp ha
+
+/-- **Plain anchors never promise pointer validity**: a refill that has to shift under a plain anchor `a > 0` keeps the
+    bytes from the anchor on but moves them, so pointers handed out since the anchor was set dangle. -/
+theorem plain_anchor_no_promise (b : Buf) (nmin a : Nat) (hf : b.hasfp = true) (he : b.eof = false) (ha : b.anchor = some a)
+    (ha0 : 0 < a) (hap : a ≤ b.pos) (hpn : b.pos < b.n) (hneed : b.n - b.pos < nmin + b.pagesize)
+    (hfull : b.balloc - b.n < b.pagesize) : (refill b nmin).2.memgen ≠ b.memgen :=
+  plain_anchor_moves b nmin a hf he ha ha0 hap hpn hneed hfull
+
+-- non-vacuity: both sides of the iff occur, and the hypotheses of `plain_anchor_no_promise` are met in a reachable state
+example : stableWitness.pos ≤ stableWitness.n ∧ stableWitness.anchor = some 0 ∧
+    ¬ (stableWitness.hasfp = false ∨ stableWitness.eof = true ∨ 1 + stableWitness.pagesize ≤ stableWitness.n - stableWitness.pos ∨
+       stableWitness.n + stableWitness.pagesize ≤ stableWitness.balloc) := by decide
+example : ({ stableWitness with balloc := 8 } : Buf).n + ({ stableWitness with balloc := 8 } : Buf).pagesize ≤ ({ stableWitness with balloc := 8 } : Buf).balloc := by decide
+example : plainWitness.hasfp = true ∧ plainWitness.eof = false ∧ plainWitness.anchor = some 1 ∧ 1 ≤ plainWitness.pos ∧
+    plainWitness.pos < plainWitness.n ∧ plainWitness.n - plainWitness.pos < 0 + plainWitness.pagesize ∧
+    plainWitness.balloc - plainWitness.n < plainWitness.pagesize := by decide
+example : (refill plainWitness 0).2.memgen ≠ plainWitness.memgen := by decide
 
 end EaselModel.Props.C05
